@@ -5,7 +5,7 @@ from trie.exceptions import ValidationError
 from trie.smt import SparseMerkleProof, SparseMerkleTree
 
 from ..ref.smt import RefSMT
-from ..util import Info, Raised, expect, expect_eq, impl
+from ..util import Info, Raised, as_bytes, as_bytes_tuple, expect, expect_eq, impl
 from .c14 import DEFAULTS, _flipbit, key_sizes, resolve_smt_key, resolve_smt_val, smt_ops
 
 ID = "C15"
@@ -54,7 +54,7 @@ def strategy(tier):
 
 
 def _state(proof):
-    return (bytes(proof.value), tuple(bytes(x) for x in proof.branch))
+    return (as_bytes("proof-value-in-sync", proof.value, "proof.value"), as_bytes_tuple("proof-branch-in-sync", proof.branch, "proof.branch"))
 
 
 def run_case(case):
@@ -104,10 +104,10 @@ def run_case(case):
 
     def check_sync(p, label):
         want = expected()
-        expect_eq("proof-value-in-sync", bytes(p.value), want[0], f"proof.value {label}")
-        expect_eq("proof-branch-in-sync", tuple(bytes(x) for x in p.branch), want[1], f"proof.branch {label}")
-        expect_eq("proof-root-in-sync", bytes(impl("root_hash", lambda: p.root_hash)), ref.root(model), f"proof.root_hash {label}")
-        expect_eq("proof-key", bytes(p.key), K, "proof.key")
+        expect_eq("proof-value-in-sync", as_bytes("proof-value-in-sync", p.value, "proof.value"), want[0], f"proof.value {label}")
+        expect_eq("proof-branch-in-sync", as_bytes_tuple("proof-branch-in-sync", p.branch, "proof.branch"), want[1], f"proof.branch {label}")
+        expect_eq("proof-root-in-sync", as_bytes("proof-root-in-sync", impl("root_hash", lambda: p.root_hash), "proof.root_hash"), ref.root(model), f"proof.root_hash {label}")
+        expect_eq("proof-key", as_bytes("proof-key", p.key, "proof.key"), K, "proof.key")
 
     check_sync(proof, "at creation")
     ops = [(kind, resolve_smt_key(kspec, ks, case["base"], written), val) for kind, kspec, val, _ in case["ops"]]
